@@ -12,8 +12,10 @@
                calls hash_key, which hashes in the order given — `fix:` commit of
                this property; before it the order of the client's environment
                entered the key), the preprocessor output digest.
-               NOT hashed: `-o`, dependency / preprocessor-only arguments (they
-               act through the preprocessor output), every other variable, cwd.
+               NOT hashed: `-o` (EXCEPT for objects instrumented for coverage /
+               profiling, whose absolute output path is an extra hashed argument),
+               dependency / preprocessor-only arguments (they act through the
+               preprocessor output), every other variable, cwd.
        rustc : compiler (shlib digests + version), the arguments other than
                `--extern`, `-L`, `--out-dir` with the `--cfg` pairs sorted and
                moved to the end, source digests, digests of the `--extern`
@@ -56,6 +58,8 @@ Inductive lang := LangC | LangRust.
 
 Inductive arg :=
 | AHashed (a : bytes)                 (* enters the key in command-line order *)
+| AProfile (a : bytes)                (* hashed like AHashed, and instruments the object for coverage / profiling
+                                         (--coverage, -ftest-coverage, -fprofile-generate): `profile_generate` *)
 | ACfg (v : bytes)                    (* rustc --cfg v *)
 | AExtern (path : bytes) (digest : N) (* rustc --extern name=path, with the digest of that file *)
 | ALinkPath (p : bytes)               (* rustc -L p *)
@@ -129,6 +133,7 @@ Fixpoint hashed_args (l : list arg) : list bytes :=
   match l with
   | [] => []
   | AHashed a :: r => a :: hashed_args r
+  | AProfile a :: r => a :: hashed_args r
   | _ :: r => hashed_args r
   end.
 
@@ -148,12 +153,28 @@ Fixpoint extern_args (l : list arg) : list (bytes * N) :=
 
 Definition cfg_flag : bytes := bs "--cfg".
 
+Definition has_profile (l : list arg) : bool :=
+  existsb (fun a => match a with AProfile _ => true | _ => false end) l.
+
+Definition obj_role : bytes := bs "obj".
+
+(* c.rs generate_hash_key, `profile_output_path`: an object instrumented for coverage / profiling embeds the
+   location of its .gcda/.gcno files, which the compiler derives from the output path; for such a request
+   cwd.join(outputs["obj"].path) is appended to the hashed arguments (relative output paths are modelled) *)
+Definition profile_out (r : request) : list bytes :=
+  if has_profile (rq_args r) then
+    match find (fun o => bytes_eqb (o_role o) obj_role) (rq_outputs r) with
+    | Some o => [rq_cwd r ++ [47] ++ o_path o]
+    | None => []
+    end
+  else [].
+
 Definition fingerprint_of (r : request) : fingerprint :=
   match rq_lang r with
   | LangC =>
       {| fp_lang := LangC;
          fp_compiler := rq_compiler r;
-         fp_args := hashed_args (rq_args r);
+         fp_args := hashed_args (rq_args r) ++ profile_out r;
          fp_env := isort pair_leb (filter (fun e => c_env_hashed (fst e)) (rq_env r));
          fp_cwd := None;
          fp_inputs := rq_inputs r |}
